@@ -115,23 +115,36 @@ func (l *Loader) findFunc(pkg *packages.Package, name string) (*ast.FuncDecl, *t
 	return nil, nil
 }
 
-// contractFiles lists the contract files of the repository: <pkg>/contracts_verif.go.
+// contractFiles lists the contract files of the repository, <dir>/contracts_verif.go,
+// for every loaded package of the module (roots and dependencies alike).
 func (l *Loader) contractFiles() map[string]string {
 	out := map[string]string{}
-	for path, p := range l.Pkgs {
-		if !inModule(path) {
-			continue
+	filepath.WalkDir(l.Root, func(path string, d os.DirEntry, err error) error {
+		if err != nil {
+			return nil
 		}
-		for _, f := range p.GoFiles {
-			if strings.HasSuffix(f, "contracts_verif.go") {
-				out[f] = path
+		if d.IsDir() {
+			n := d.Name()
+			if path != l.Root && (strings.HasPrefix(n, ".") || n == "node_modules" || n == "var" || n == "vendor") {
+				return filepath.SkipDir
 			}
+			return nil
 		}
-		for _, f := range p.IgnoredFiles {
-			if strings.HasSuffix(f, "contracts_verif.go") {
-				out[f] = path
-			}
+		if d.Name() != "contracts_verif.go" {
+			return nil
 		}
-	}
+		rel, err := filepath.Rel(l.Root, filepath.Dir(path))
+		if err != nil {
+			return nil
+		}
+		pkg := "reservoir"
+		if rel != "." {
+			pkg = "reservoir/" + filepath.ToSlash(rel)
+		}
+		if _, ok := l.Pkgs[pkg]; ok {
+			out[path] = pkg
+		}
+		return nil
+	})
 	return out
 }
